@@ -647,6 +647,66 @@ def d8_refusal_only_for_scalars(chk: Check) -> None:
                                 .format(fi.short, found))
 
 
+def d9_sentinel_is_not_a_value(chk: Check) -> None:
+    """min / max keep the best value met so far in a variable whose `None`
+    means "no candidate yet" (`if best is None or ...`).  A null that the
+    document holds under the scanned attribute must therefore never be
+    stored there: it would read as "no candidate", the next member wins
+    unconditionally and the real extremes met before are discarded.  Every
+    `best = X` inside the scans is dominated by `X is not None` (for the
+    expression X is defined as)."""
+    from sa.coords import reaching_def
+    prog = chk.prog
+    chk.rule("C13-D9", "every value stored as the running extreme of "
+             "min / max is known not to be null (null is the scans' "
+             "\"no candidate yet\" marker)", floor=6)
+    for q in ("KeywordSearches.min", "KeywordSearches.max"):
+        fi = prog.func(q)
+        sentinels = set()
+        for t in walk_local(fi.node):
+            if isinstance(t, ast.Compare) and len(t.ops) == 1 and \
+                    isinstance(t.ops[0], ast.Is) and \
+                    src(t.comparators[0]) == "None" and \
+                    isinstance(t.left, ast.Name):
+                p_ = parent(t)
+                if isinstance(p_, ast.BoolOp) and isinstance(p_.op, ast.Or):
+                    sentinels.add(t.left.id)
+        if len(sentinels) != 1:
+            raise AnalysisError("{}: running-extreme variable not found: {}"
+                                .format(fi.short, sorted(sentinels)))
+        best = sentinels.pop()
+        for a in walk_local(fi.node):
+            if not (isinstance(a, ast.Assign) and
+                    src(a.targets[0]) == best and
+                    any(isinstance(x, (ast.For, ast.While))
+                        for x in ancestors(a))):
+                continue
+            v = a.value
+            names = {src(v)}
+            if isinstance(v, ast.Name):
+                d = reaching_def(v.id, a)
+                if d is not None:
+                    names.add(src(d))
+            nonnull = any(
+                f.kind == "cond" and isinstance(f.expr, ast.Compare) and
+                len(f.expr.ops) == 1 and
+                src(f.expr.comparators[0]) == "None" and
+                src(f.expr.left) in names and
+                ((isinstance(f.expr.ops[0], ast.IsNot) and f.pol) or
+                 (isinstance(f.expr.ops[0], ast.Is) and not f.pol))
+                for f in facts_at(a))
+            text = "{}: {} = {}".format(fi.short, best, src(v))
+            if nonnull:
+                chk.ok("C13-D9", fi, a, text, "known not to be null")
+            else:
+                chk.fail("C13-D9", fi, a, text,
+                         "`{}` may be a null held by the document: stored "
+                         "as the running extreme it reads as \"no "
+                         "candidate yet\", so the next member wins "
+                         "unconditionally and earlier extremes are "
+                         "discarded".format(src(v)))
+
+
 def run(chk: Check) -> None:
     d1_routing(chk)
     d2_extremes(chk)
@@ -656,3 +716,4 @@ def run(chk: Check) -> None:
     d6_partition(chk)
     d7_branches_exclusive(chk)
     d8_refusal_only_for_scalars(chk)
+    d9_sentinel_is_not_a_value(chk)
